@@ -57,8 +57,8 @@ ALLOW_STR = {
     ('normalize_event_code', 'js', 'x'): "JS concatenates the relay separator, Python has it inside the format string '%sx%s'",
     ('_norm_m', 'js', '/[ m]/'): 'JS strips the unit with a regex, Python slices it off',
     ('_norm_kg', 'py', 'g'): 'unit letters: comparisons in Python, regex classes in JS', ('_norm_kg', 'py', 'k'): 'same',
-    ('_norm_kg', 'js', '/[ g]/'): 'same', ('_norm_kg', 'js', '/[ kK]/'): 'same',
-    ('_norm_g', 'py', 'g'): 'same', ('_norm_g', 'js', '/[ g]/'): 'same',
+    ('_norm_kg', 'js', '/[ gG]/'): 'same', ('_norm_kg', 'js', '/[ kK]/'): 'same',
+    ('_norm_g', 'py', 'g'): 'same', ('_norm_g', 'js', '/[ gG]/'): 'same',
     ('TyrvingCalculator.race_points', 'py', ','): 'decimal comma: str.replace in Python, regex in JS',
     ('TyrvingCalculator.race_points', 'js', '/,/'): 'same', ('TyrvingCalculator.race_points', 'js', '/\\./'): 'count of points via regex',
 
@@ -628,6 +628,56 @@ def run(ctx, repo):
         if not res_py and not res_js and pc == jc and not sres:
             ctx.ok('R3', '%s <-> %s: %d predicates, constants %s agree' % (pq, jq, len(pp | jp), sorted(pc)))
     ctx.floor('ported pairs compared', n_pairs, 18)
+    # ---- R7 the unit letters a normaliser removes from the end of a group are the same set in both languages, letter case included:
+    # Python tests `s[-1].lower() == 'g'` (g and G), JavaScript strips with a character class; the class must hold both cases
+    import re as _re
+    ctx.rule('R7', 'the unit letters stripped by each event-code normaliser (_norm_kg, _norm_g, _norm_cm, _norm_m) are the same set, upper and lower case, in both languages')
+    for pq, jq in (('_norm_kg', '_normgKg'), ('_norm_g', '_normg'), ('_norm_m', '_normm'), ('_norm_cm', '_normCM')):
+        if not pmods['utils'].has_func(pq) or jq not in jfun['utils']:
+            continue
+        pf_ = pmods['utils'].func(pq)
+        pl = set()
+        for c in ast.walk(pf_):
+            if isinstance(c, ast.Compare) and len(c.ops) == 1 and isinstance(c.comparators[0], ast.Constant) and isinstance(c.comparators[0].value, str):
+                val = c.comparators[0].value
+                l = c.left
+                folded_case = isinstance(l, ast.Call) and isinstance(l.func, ast.Attribute) and l.func.attr in ('lower', 'upper', 'casefold')
+                base = l.func.value if folded_case else l
+                if isinstance(base, ast.Subscript) and isinstance(c.ops[0], (ast.Eq, ast.In)):
+                    for ch in val:
+                        if ch.isalpha():
+                            pl |= {ch.lower(), ch.upper()} if folded_case else {ch}
+            if isinstance(c, ast.Call) and isinstance(c.func, ast.Attribute) and c.func.attr in ('rstrip', 'endswith') and c.args \
+                    and isinstance(c.args[0], ast.Constant) and isinstance(c.args[0].value, str):
+                recv = c.func.value
+                folded_case = isinstance(recv, ast.Call) and isinstance(recv.func, ast.Attribute) and recv.func.attr in ('lower', 'upper')
+                for ch in c.args[0].value:
+                    if ch.isalpha():
+                        pl |= {ch.lower(), ch.upper()} if folded_case else {ch}
+        jl = set()
+        for n in jsast.jwalk(jfun['utils'][jq]):
+            if n.get('type') == 'Literal' and 'regex' in n:
+                flags = n['regex'].get('flags', '')
+                for cls in _re.findall(r'\[([^\]]*)\]', n['regex']['pattern']):
+                    for ch in cls:
+                        if ch.isalpha():
+                            jl |= {ch.lower(), ch.upper()} if 'i' in flags else {ch}
+            if n.get('type') == 'BinaryExpression' and n['operator'] in ('===', '==') and n['right'].get('type') == 'Literal' and isinstance(n['right'].get('value'), str):
+                lcall = n['left']
+                lowered = lcall.get('type') == 'CallExpression' and lcall['callee'].get('type') == 'MemberExpression' and \
+                    lcall['callee']['property'].get('name') in ('toLowerCase', 'toUpperCase')
+                for ch in n['right']['value']:
+                    if ch.isalpha():
+                        jl |= {ch.lower(), ch.upper()} if lowered else {ch}
+        if not pl or not jl:
+            continue        # one side removes the unit by position (the pattern fixes the letter there): nothing to compare
+        if pl == jl:
+            ctx.ok('R7', '%s <-> %s strip the unit letters %s' % (pq, jq, ''.join(sorted(pl))))
+        else:
+            ctx.finding('R7', '%s::%s::unit letters %s' % (JS['utils'], jq, ''.join(sorted(pl ^ jl))), JS['utils'], jsast.line(jfun['utils'][jq]),
+                        '%s removes the unit letters {%s} from the end of the group, its port %s removes {%s}: a code written with %s keeps the letter '
+                        'in one language only and normalises to another code' % (pq, ''.join(sorted(pl)), jq, ''.join(sorted(jl)),
+                                                                                   ', '.join(repr(x) for x in sorted(pl ^ jl))), sorted(pl ^ jl))
     # ---- R4 notation taint on the JS twin
     n_calls = 0
     for q, fn in jfun['utils'].items():
